@@ -233,5 +233,9 @@ func modelQuery(c *Case, changes []string, fixed bool) string {
 	if fixed {
 		fx = "1"
 	}
-	return "dialog\t" + fx + "\t" + strings.Join(cs, "|") + "\t" + strings.Join(bs, "|") + "\t" + strings.Join(sp, "|")
+	na := "0"
+	if c.NoAsk {
+		na = "1"
+	}
+	return "dialog\t" + fx + "\t" + na + "\t" + strings.Join(cs, "|") + "\t" + strings.Join(bs, "|") + "\t" + strings.Join(sp, "|")
 }
